@@ -2857,6 +2857,19 @@ def groupby_reduce(
             # Do not let the heuristics pick a plan that would then be rejected.
             method = "map-reduce"
 
+        if (
+            method_was_chosen_automatically
+            and reindex.blockwise is True
+            and method == "blockwise"
+            and not any_by_dask
+            and not all(nchunks == 1 for nchunks in array.numblocks[-nax:])
+        ):
+            # only reachable for reductions that can only run blockwise (e.g. median, first)
+            raise ValueError(
+                "reindex=True is not a valid choice for method='blockwise', "
+                f"which is the only way to compute {agg.name!r} on a chunked array."
+            )
+
         if method == "cohorts" and not chunks_cohorts:
             # None of the expected groups is present in `by`, so there are no cohorts.
             # "map-reduce" handles this fine: every group receives the fill_value.
